@@ -39,6 +39,11 @@ pub struct Stats {
 /// The C01 oracle over a transcript: termination, every extent inside the
 /// region and inside the tag it was derived from.
 pub fn validate(t: &Transcript, region_len: usize) -> Result<Stats, String> {
+    validate_from(t, region_len, 8)
+}
+
+/// `first_tag`: offset of the first tag (8 for boot informations, 16 for headers).
+pub fn validate_from(t: &Transcript, region_len: usize, first_tag: usize) -> Result<Stats, String> {
     let mut st = Stats { loaded: false, panics: 0, counted_views: 0, kinds: Vec::new() };
     match t.get("load") {
         Some(Val::Txt(s)) if s == "Ok" => st.loaded = true,
@@ -61,7 +66,7 @@ pub fn validate(t: &Transcript, region_len: usize) -> Result<Stats, String> {
         if let Some(rest) = k.strip_prefix('w') {
             if let Ok(i) = rest.parse::<usize>() {
                 if let Val::Ext(o, l) = v {
-                    if o % 8 != 0 || *o < 8 || o.checked_add(*l).map_or(true, |e| e > region_len) {
+                    if o % 8 != 0 || *o < first_tag || o.checked_add(*l).map_or(true, |e| e > region_len) {
                         return Err(format!("{k}: tag extent ({o},{l}) is not inside the declared region of {region_len} bytes"));
                     }
                     tags.insert(i, (*o, *l));
